@@ -96,6 +96,29 @@ struct LedgerAlloc
     }
 };
 
+#ifdef VERIF_PROP_VARIANT
+// propagation policy chosen by the user through a specialisation (the only way to express one): swap always travels (so
+// that swapping containers on different allocator objects stays legal), move / copy assignment per bit 0 / bit 1
+namespace foonathan
+{
+    namespace memory
+    {
+        template <>
+        struct propagation_traits<LedgerAlloc>
+        {
+            using propagate_on_container_swap = std::true_type;
+            using propagate_on_container_move_assignment = std::integral_constant<bool, ((VERIF_PROP_VARIANT)&1) != 0>;
+            using propagate_on_container_copy_assignment = std::integral_constant<bool, ((VERIF_PROP_VARIANT)&2) != 0>;
+            template <class AllocReference>
+            static AllocReference select_on_container_copy_construction(const AllocReference& alloc)
+            {
+                return alloc;
+            }
+        };
+    } // namespace memory
+} // namespace foonathan
+#endif
+
 //=== element types of any size/alignment ===//
 template <std::size_t S, std::size_t A>
 struct alignas(A) El
